@@ -1121,3 +1121,9 @@ func vspecCWM(src []byte) int { return vspecCW(src) + 2 + vspecBE16(src, vspecCW
 //@ func (*ConnectMessage).WillMessage
 //@   pure
 //@   ensures sameslice(result, m.willMessage) && cap(result) == cap(m.willMessage)
+
+//@ func (*SubackMessage).AddReturnCode
+//@   results err
+//@   ensures[C07:codes] (err == nil) == vspecRetCodeOK(ret)
+//@   ensures[C07:codes] err == nil ==> m.dirty && len(m.returnCodes) == old(len(m.returnCodes))+1 && m.returnCodes[old(len(m.returnCodes))] == ret
+//@   modifies m.returnCodes, m.dirty, capelems(m.returnCodes)
